@@ -446,6 +446,8 @@ class TorrentFile(MetaFile, ProgMixin):
             metadata dictionary for torrent file
         """
         info = self.meta["info"]
+        info.pop("length", None)
+        info.pop("files", None)
         size, filelist = utils.filelist_total(self.path)
         kws = {
             "progress": self.progress,
@@ -544,6 +546,9 @@ class TorrentFileV2(MetaFile, ProgMixin):
             Metainformation about the torrent.
         """
         info = self.meta["info"]
+        info.pop("length", None)
+        self.piece_layers = {}
+        self.hashes = []
         if os.path.isfile(self.path):
             info["file tree"] = {info["name"]: self._traverse(self.path)}
             info["length"] = os.path.getsize(self.path)
@@ -629,6 +634,9 @@ class TorrentFileHybrid(MetaFile, ProgMixin):
         self.piece_layers = {}
         self.pieces = []
         self.files = []
+        info.pop("length", None)
+        info.pop("files", None)
+        self.kws.pop("pad", None)
 
         if os.path.isfile(self.path):
             self.kws["pad"] = False
@@ -740,6 +748,9 @@ class TorrentAssembler(MetaFile, ProgMixin):
         self.piece_layers = {}
         self.pieces = bytearray()
         self.files = []
+        info.pop("length", None)
+        info.pop("files", None)
+        self.kws.pop("pad", None)
 
         if os.path.isfile(self.path):
             self.kws["pad"] = False
